@@ -22,6 +22,9 @@ pub struct Proc {
     pub hooks: u32,
     #[serde(default, skip_serializing_if = "Option::is_none")]
     pub fsize: Option<u64>,
+    /// with `fsize`: fail the write with an error (disk full) instead of killing the writer
+    #[serde(default, skip_serializing_if = "std::ops::Not::not")]
+    pub fsize_error: bool,
     /// recorded scheduler decision list to replay (None = decide from `seed`/`policy`)
     #[serde(default, skip_serializing_if = "Option::is_none")]
     pub decisions: Option<Vec<u64>>,
@@ -37,6 +40,7 @@ impl Proc {
             policy: "uniform".into(),
             hooks: 0,
             fsize: None,
+            fsize_error: false,
             decisions: None,
         }
     }
@@ -61,6 +65,7 @@ impl Proc {
             policy,
             hooks,
             fsize: None,
+            fsize_error: false,
             decisions: None,
         }
     }
@@ -176,6 +181,9 @@ fn account(p: &Proc, out: &ProcOut) {
         .or_insert(0) += 1;
     if p.fsize.is_some() && out.signal == Some(libc::SIGXFSZ) {
         fault("crash_at_byte");
+    }
+    if p.fsize.is_some() && p.fsize_error && out.code == Some(101) {
+        fault("write_error_at_byte");
     }
     if out.sim_failed() {
         a.sim_failures.fetch_add(1, Ordering::Relaxed);
@@ -299,6 +307,9 @@ pub fn run_proc(dir: &RunDir, p: &Proc, log: &mut Vec<String>) -> Result<ProcOut
         .stderr(Stdio::piped());
     if let Some(n) = p.fsize {
         cmd.env("SKASIM_FSIZE", n.to_string());
+        if p.fsize_error {
+            cmd.env("SKASIM_FSIZE_ERROR", "1");
+        }
     }
     let mut replay_file = None;
     if let Some(d) = &p.decisions {
